@@ -878,11 +878,13 @@ bool edn_number_as_double(const edn_value_t* value, double* out) {
             {
                 /* Use standard strtod for conversion */
                 char buffer[512];
-                size_t len = value->as.bigdec.length;
-                if (len >= sizeof(buffer)) {
-                    len = sizeof(buffer) - 1;
+                size_t len = 0;
+                /* Copy the digits, leaving out underscore separators */
+                for (size_t i = 0; i < value->as.bigdec.length && len < sizeof(buffer) - 1; i++) {
+                    if (value->as.bigdec.decimal[i] != '_') {
+                        buffer[len++] = value->as.bigdec.decimal[i];
+                    }
                 }
-                memcpy(buffer, value->as.bigdec.decimal, len);
                 buffer[len] = '\0';
 
                 double result = strtod(buffer, NULL);
